@@ -22,6 +22,7 @@ fn main() {
         Some("run") => cmd_run(&args),
         Some("replay") => cmd_replay(&args),
         Some("gen-selftest") => cmd_gen_selftest(&args),
+        Some("exp-c06") => cmd_exp_c06(&args),
         Some("scenario-dump") => {
             let tier = if arg(&args, "--tier") == Some("thorough") { Tier::Thorough } else { Tier::Quick };
             println!("{}", checks::scenario_json(&args[2], args[3].parse().unwrap(), tier));
@@ -224,6 +225,94 @@ fn cmd_gen_dump(args: &[String]) -> i32 {
             std::fs::write(p, &bytes).unwrap();
         }
         println!("{:?}", decode_oneshot(&bytes));
+    }
+    0
+}
+
+fn add_alpha(p: &mut jxlgen::Program, mode: jxlgen::BlendMode, ec_add: bool) {
+    use jxlgen::*;
+    p.extra.push(EcSpec { kind: EcKind::Alpha { associated: false }, bits: 8, dim_shift: 0, name: String::new(), default_form: false });
+    let f = &mut p.frames[0];
+    f.ec_upsampling = vec![1];
+    f.blend = BlendSpec { mode, alpha_channel: 0, clamp: false, source: 1 };
+    f.ec_blend = vec![BlendSpec { mode: if ec_add { BlendMode::Add } else { BlendMode::Replace }, alpha_channel: 0, clamp: false, source: 1 }];
+}
+
+/// Triage helper: ROI equality on hand-made programs with single features toggled.
+fn cmd_exp_c06(_args: &[String]) -> i32 {
+    use jxlgen::*;
+    harness::install_panic_hook();
+    let variants: Vec<(&str, Box<dyn Fn(&mut Program)>)> = vec![
+        ("plain", Box::new(|_p| {})),
+        ("gab", Box::new(|p| p.frames[0].gab = GabSpec::Default)),
+        ("epf1", Box::new(|p| p.frames[0].epf = Some(EpfSpec { iters: 1, weight_custom: None, sigma_custom: None, sigma_for_modular: 1.0 }))),
+        ("epf2", Box::new(|p| p.frames[0].epf = Some(EpfSpec { iters: 2, weight_custom: None, sigma_custom: None, sigma_for_modular: 1.0 }))),
+        ("epf3", Box::new(|p| p.frames[0].epf = Some(EpfSpec { iters: 3, weight_custom: None, sigma_custom: None, sigma_for_modular: 1.0 }))),
+        ("muladd", Box::new(|p| p.frames[0].blend = BlendSpec { mode: BlendMode::MulAdd, alpha_channel: 0, clamp: false, source: 1 })),
+        ("add", Box::new(|p| p.frames[0].blend = BlendSpec { mode: BlendMode::Add, alpha_channel: 0, clamp: false, source: 1 })),
+        ("gab+add", Box::new(|p| { p.frames[0].gab = GabSpec::Default; p.frames[0].blend = BlendSpec { mode: BlendMode::Add, alpha_channel: 0, clamp: false, source: 1 } })),
+        ("epf2+add", Box::new(|p| { p.frames[0].epf = Some(EpfSpec { iters: 2, weight_custom: None, sigma_custom: None, sigma_for_modular: 1.0 }); p.frames[0].blend = BlendSpec { mode: BlendMode::Add, alpha_channel: 0, clamp: false, source: 1 } })),
+        ("orient5", Box::new(|p| p.orientation = 5)),
+        ("orient5+gab", Box::new(|p| { p.orientation = 5; p.frames[0].gab = GabSpec::Default })),
+        ("gray+gab", Box::new(|p| { p.gray = true; p.frames[0].gab = GabSpec::Default })),
+        ("alpha", Box::new(|p| add_alpha(p, BlendMode::Replace, false))),
+        ("alpha+gab", Box::new(|p| { add_alpha(p, BlendMode::Replace, false); p.frames[0].gab = GabSpec::Default })),
+        ("alpha+add", Box::new(|p| add_alpha(p, BlendMode::Add, false))),
+        ("alpha+blend", Box::new(|p| add_alpha(p, BlendMode::Blend, false))),
+        ("alpha+muladd", Box::new(|p| add_alpha(p, BlendMode::MulAdd, false))),
+        ("alpha+gab+add", Box::new(|p| { add_alpha(p, BlendMode::Add, false); p.frames[0].gab = GabSpec::Default })),
+        ("alpha+gab+muladd", Box::new(|p| { add_alpha(p, BlendMode::MulAdd, false); p.frames[0].gab = GabSpec::Default })),
+        ("alpha+gab+blend", Box::new(|p| { add_alpha(p, BlendMode::Blend, false); p.frames[0].gab = GabSpec::Default })),
+        ("alpha+epf+blend", Box::new(|p| { add_alpha(p, BlendMode::Blend, false); p.frames[0].epf = Some(EpfSpec { iters: 2, weight_custom: None, sigma_custom: None, sigma_for_modular: 1.0 }) })),
+        ("alpha+gab+ecadd", Box::new(|p| { add_alpha(p, BlendMode::Replace, true); p.frames[0].gab = GabSpec::Default })),
+        ("up2", Box::new(|p| p.frames[0].upsampling = 2)),
+        ("up2+add", Box::new(|p| { p.frames[0].upsampling = 2; p.frames[0].blend = BlendSpec { mode: BlendMode::Add, alpha_channel: 0, clamp: false, source: 1 } })),
+    ];
+    for (name, f) in variants {
+        let mut bad = 0;
+        let mut total = 0;
+        let mut first = String::new();
+        for (w, h) in [(40u32, 33u32), (150, 140), (31, 320)] {
+            let mut p = jxlgen::random::minimal_program(w, h, 5);
+            f(&mut p);
+            let Ok((bytes, _)) = p.encode() else { continue };
+            let sched = simio::ChunkSchedule::whole(bytes.len());
+            let Ok(full_img) = checks::common::load_chunked(&bytes, &sched, None, jxl_oxide::JxlThreadPool::none()) else { println!("{name}: load failed"); continue };
+            let Ok(fr) = full_img.render_frame(0) else { println!("{name}: full render failed"); continue };
+            let fullp: Vec<Vec<f32>> = fr.image_planar().iter().map(|x| x.buf().to_vec()).collect();
+            let (iw, ih) = (full_img.width(), full_img.height());
+            let mut img = checks::common::load_chunked(&bytes, &sched, None, jxl_oxide::JxlThreadPool::none()).unwrap();
+            for (l, t, rw, rh) in [(3u32, 2u32, 5u32, 7u32), (iw / 2, ih / 2, 2, 9), (0, 0, iw, 1), (iw - 1, ih - 1, 1, 1), (10, 1, 17, 20)] {
+                let rw = rw.min(iw - l);
+                let rh = rh.min(ih - t);
+                img.set_image_region(jxl_oxide::CropInfo { left: l, top: t, width: rw, height: rh });
+                total += 1;
+                let r = std::panic::catch_unwind(std::panic::AssertUnwindSafe(|| img.render_frame(0)));
+                match r {
+                    Err(_) => { bad += 1; if first.is_empty() { first = format!("PANIC {w}x{h} region {l},{t} {rw}x{rh} at {}", harness::last_panic_location()); } }
+                    Ok(Err(e)) => { bad += 1; if first.is_empty() { first = format!("ERR {e}"); } }
+                    Ok(Ok(r)) => {
+                        let gp: Vec<Vec<f32>> = r.image_planar().iter().map(|x| x.buf().to_vec()).collect();
+                        let mut diff = false;
+                        'o: for (c, (g, wv)) in gp.iter().zip(&fullp).enumerate() {
+                            for y in 0..rh as usize {
+                                for x in 0..rw as usize {
+                                    let a = wv[(t as usize + y) * iw as usize + l as usize + x];
+                                    let b = g[y * rw as usize + x];
+                                    if (a - b).abs() > 1e-6 {
+                                        diff = true;
+                                        if first.is_empty() { first = format!("DIFF {w}x{h} region {l},{t} {rw}x{rh} c={c} x={x} y={y}: {b} vs full {a}"); }
+                                        break 'o;
+                                    }
+                                }
+                            }
+                        }
+                        if diff { bad += 1; }
+                    }
+                }
+            }
+        }
+        println!("{name:12} bad {bad}/{total} {first}");
     }
     0
 }
